@@ -190,6 +190,19 @@ class Engine(ExprMixin, CallMixin, StmtMixin):
         self.pre_conds = list(st.pc)
         ensures = ([] if drop_ensures else list(c.ensures)) + list(extra_ensures or [])
         body = front.strip_doc(fdef.body)
+        if c.slice:
+            # mechanical cut: statements from the first one whose text starts with slice["from"] up to (not including)
+            # the first later one whose text starts with slice["to"]; everything before is havocked (fresh state)
+            texts = [ast.unparse(b) for b in body]
+            lo = next((k for k, t in enumerate(texts) if t.startswith(c.slice["from"])), None)
+            hi = next((k for k, t in enumerate(texts) if lo is not None and k > lo and t.startswith(c.slice["to"])), None) \
+                if c.slice.get("to") else len(body)
+            if lo is None or hi is None:
+                raise front.Missing("slice markers of %s not found in the current source" % c.qual)
+            body = body[lo:hi]
+            self.slice_lines = (body[0].lineno, body[-1].end_lineno)
+            self.assumptions.add("%s: only the slice lines %d-%d is verified; statements before it are havocked, after it ignored"
+                                 % (c.name, body[0].lineno, body[-1].end_lineno))
         outs = self.exec_block(body, st)
         npaths = 0
         for s2, sig in outs:
@@ -210,6 +223,13 @@ class Engine(ExprMixin, CallMixin, StmtMixin):
             if sig is not None and sig[0] in ("break", "continue"):
                 raise Unsupported("break/continue outside loop")
             res = sig[1] if sig is not None else VNone()
+            if c.returns not in (None, "none", "None") and isinstance(res, VOpt) and res.ity == T.parse_type(c.returns):
+                # declared non-optional: returning None here would be a type violation
+                self.obligations.append(Obligation(self.cur_name, "post", "type", s2.conds(), z3.Not(res.isnone),
+                                                   "returns None where the contract declares %s" % c.returns,
+                                                   npaths, inputs, getattr(fdef, "lineno", 0)))
+                s2.assume(z3.Not(res.isnone))
+                res = res.v
             if c.returns not in (None,) and not isinstance(res, VFunc):
                 try:
                     res = coerce(res, T.parse_type(c.returns)) if c.returns not in ("none", "None") else res
